@@ -207,6 +207,7 @@ func (e *Engine) Run(t *core.Tape, cfg *core.Config, st *core.Stats) *core.Viola
 	}
 	S := r0.h.Steps
 	H := r0.h.HostCalls
+	st.D(r0.hash)
 	if S > 6000 {
 		st.Discarded++
 		return nil
@@ -248,6 +249,7 @@ func (e *Engine) Run(t *core.Tape, cfg *core.Config, st *core.Stats) *core.Viola
 		r := execVM(proto, ov, kind, at, maxSteps, kind == hostapi.VCancel)
 		st.Evals++
 		st.Steps += r.h.Steps
+		st.D(r.hash)
 		kn := hostapi.VKindNames[kind]
 		where := fmt.Sprintf("fault %s=%d (of S=%d steps, H=%d host calls)", kn, at, S, H)
 		mk := func(class, format string, args ...interface{}) *core.Violation {
